@@ -257,6 +257,19 @@ func c16Generate(ctx *Ctx, ops []fop, schemas []string, cfg fcfg, fw string) err
 	replay := J{"kind": "generate", "ops": ops, "cfg": cfg, "fw": fw, "schemas": schemas, "doc": doc}
 	src, err := generate(spec, o)
 	if err != nil {
+		// two kept operations with one identifier are refused (an error, not a file that declares everything twice)
+		idCount := map[string]int{}
+		for _, op := range ops {
+			if keepOracle(cfg, op) {
+				idCount[op.ID]++
+			}
+		}
+		for _, c := range idCount {
+			if c > 1 && strings.Contains(err.Error(), "are both named") {
+				ctx.Res.Count("generate:refused-two-operations-one-id")
+				return nil
+			}
+		}
 		ctx.Res.Violate("generate-error:"+fw, "Generate failed on a filter document: "+err.Error(), replay)
 		return nil
 	}
